@@ -11,7 +11,7 @@ def probe_rules(n):
     return [ExternRule("Probe%d" % i, ["vfrt", "vfu", "probe_%d" % i]) for i in range(n)]
 
 
-NFAM = 7
+NFAM = 9
 
 
 def fam(index):
@@ -40,6 +40,34 @@ def fam(index):
         for n in (1, 8, 20, 40, 70, 120):
             body = " ".join(("k%s = v," % "") .replace("k", "key"[: 1 + i % 3]).replace("v", "val"[: 1 + i % 2]) if i % 2 else "x," for i in range(n))
             ins += [body + " end", body + " stop", body + " z", body + " =", body]
+        return g, {"Ss": ins}, []
+    if k == 7:
+        # memoized wrappers around rules that are themselves cached (memoized struct / string rule, left-recursive rule):
+        # the wrapper's own body (probe, brackets, lookahead) must not run again either
+        word = Rule("Word", Cho([Seq([Ref("Probe2"), Grp(Cho([Seq([Clo(Cho([Seq([Rng("a", "z")])]), True)])]))])]), ["memoize", "string", "no_skip_ws"])
+        lst = Rule("List", Cho([Seq([Ref("Probe1"), Grp(Cho([Seq([Ref("Word", "items"), Clo(Cho([Seq([L(","), Ref("Word", "items")])]))])]))])]), ["memoize"])
+        stmt = Rule("Stmt", Cho([Seq([Ref("Probe0"), Ref("List", "@")])]), ["memoize"])
+        expr = Rule("Expr", Cho([Seq([Ref("Expr", "l", True), L("+"), Ref("Word", "r")]), Seq([Ref("Word", "r")])]), ["leftrec"])
+        paren = Rule("Paren", Cho([Seq([Ref("Probe3"), L("("), Ref("Expr", "@"), L(")")])]), ["memoize"])
+        kw = Rule("Kw", Cho([Seq([L("if")]), Seq([L("do")])]), ["no_skip_ws"])
+        guard = Rule("Guard", Cho([Seq([Ref("Probe4"), Neg(Ref("Kw")), Ref("Word", "@")])]), ["memoize", ("check", ["vfrt", "vfu", "chk0"])])
+        s = Rule("Ss", Cho([Seq([Ref("Stmt", "s"), L("!"), Eoi()]), Seq([Ref("Stmt", "s"), L("?"), Eoi()]), Seq([Ref("Stmt", "s"), Eoi()]),
+                            Seq([Ref("Paren", "p"), L("!")]), Seq([Ref("Paren", "p"), L("?")]), Seq([Ref("Paren", "p")]),
+                            Seq([Ref("Guard", "g"), L("1")]), Seq([Ref("Guard", "g"), L("2")]), Seq([Ref("Guard", "g")])]), ["export"])
+        g = Grammar([s, stmt, lst, word, paren, expr, guard, kw] + probe_rules(5))
+        ins = ["a,b!", "a,b?", "a,b", "a , bc , d#", "(a+b)!", "(a+b)?", "(a+b)", "(a+b+c+d)#", "(a#", "x1", "x2", "x3", "memo2", "if1", "do", "hello", ""]
+        return g, {"Ss": ins}, []
+    if k == 8:
+        # statement lists, hundreds to thousands of statements: the memoized Name is reached at the same offset first through
+        # Call (one level deeper) and then directly; whatever a cache entry carries besides the result adds up over a long input
+        name = Rule("Name", Cho([Seq([Ref("Probe0"), Grp(Cho([Seq([Clo(Cho([Seq([Rng("a", "z")])]), True)])]))])]), ["memoize", "string", "no_skip_ws"])
+        call = Rule("Call", Cho([Seq([Ref("Probe1"), Ref("Name", "name"), L("("), Opt(Cho([Seq([Ref("Name", "arg")])])), L(")")])]), ["memoize"])
+        stmt = Rule("Stmt", Cho([Seq([Ref("Call", "call"), L(";")]), Seq([Ref("Name", "var"), L(";")])]), [])
+        prog = Rule("Ss", Cho([Seq([Clo(Cho([Seq([Ref("Stmt", "stmts")])])), Eoi()])]), ["export"])
+        g = Grammar([prog, stmt, call, name] + probe_rules(2))
+        ins = []
+        for n in (1, 10, 100, 250, 255, 256, 257, 500, 1000, 1020, 1021, 1022, 1023, 1024, 1025, 1030, 1500, 2100, 3000):
+            ins += ["x;" * n + "f();", "x;" * n, ("x;f(y);" * (n // 2 + 1)) + "z"]
         return g, {"Ss": ins}, []
     if k == 0:
         # nested brackets, three alternatives sharing the prefix '(' A
